@@ -865,6 +865,135 @@ static int op_dynrealm(int argc, char **argv, FILE *out) {
     return 1;
 }
 
+static void put_lookups(FILE *out) {
+    fputs(h_execlog_take(), out);
+    if (h_dns_last_qtype() >= 0) {
+        fprintf(out, " dns:%d:", h_dns_last_qtype());
+        puthex(out, (const uint8_t *)h_dns_last_qname(), strlen(h_dns_last_qname()));
+    }
+}
+static struct clsrvconf *dynconf(const char *name, char *cmd) {
+    struct clsrvconf *conf = calloc(1, sizeof(*conf));
+    conf->name = stringcopy(name, 0);
+    conf->type = RAD_TCP;
+    conf->pdef = protodefs[RAD_TCP];
+    conf->dynamiclookupcommand = cmd;
+    conf->secret = (uint8_t *)stringcopy("s", 0);
+    conf->secret_len = 1;
+    conf->lock = malloc(sizeof(pthread_mutex_t));
+    pthread_mutex_init(conf->lock, NULL);
+    return conf;
+}
+/* dynfind <hex DynamicLookupCommand> <hex id1> <hex id2>: a realm "*" with a dynamic server and a dynamic accounting server,
+   driven through the real findserver():
+   p1  findserver(id1): the sub-realm is created and both lookups start (the stub command prints nothing: they fail and the
+       writer threads enter their hold-down sleep);
+   --  the accounting server is taken to have been discovered meanwhile (state CONNECTED); the other server's hold-down ends:
+       its thread takes it out of the sub-realm, where an unstarted copy of the block takes its place;
+   p2  findserver(id2): what is looked up now, and with which argument. */
+static int op_dynfind(int argc, char **argv, FILE *out) {
+    char *cmd, *id1, *id2;
+    struct list *rl, *saved = realms;
+    struct realm *realm, *found = NULL;
+    struct clsrvconf *auth, *acct, *c;
+    struct server *srv;
+    struct tlv *un;
+    void *th;
+    if (argc != 3)
+        return 0;
+    cmd = hxstr(argv[0]);
+    id1 = hxstr(argv[1]);
+    id2 = hxstr(argv[2]);
+    if (!cmd || !id1 || !id2)
+        return 0;
+    h_threads_reset();
+    h_execlog_reset();
+    h_dns_set_answer((const uint8_t *)"", 0, -1);
+    if (!protodefs[RAD_TCP])
+        protodefs[RAD_TCP] = tcpinit(RAD_TCP);
+    rl = list_create();
+    {
+        char star[] = "*";
+        realm = addrealm(rl, star, NULL, NULL, NULL, 0, 0);
+    }
+    auth = dynconf("dynauth", cmd);
+    acct = dynconf("dynacct", stringcopy(cmd, 0));
+    realm->srvconfs = list_create();
+    list_push(realm->srvconfs, auth);
+    newrealmref(realm);
+    realm->accsrvconfs = list_create();
+    list_push(realm->accsrvconfs, acct);
+    newrealmref(realm);
+    realms = rl;
+    h_exec_status = 1; /* the stub command fails: the discovery fails at once and the hold-down begins */
+    fputs("p1", out);
+    un = maketlv(RAD_Attr_User_Name, strlen(id1), id1);
+    srv = findserver(&found, un, 0);
+    freetlv(un);
+    if (found && found->parent) {
+        fputs(" sub:", out);
+        puthex(out, (uint8_t *)found->name, strlen(found->name));
+        if (srv && srv->dynamiclookuparg) {
+            fputs(" arg:", out);
+            puthex(out, (uint8_t *)srv->dynamiclookuparg, strlen(srv->dynamiclookuparg));
+        }
+    } else
+        fputs(found ? " top" : " none", out);
+    put_lookups(out);
+    if (found) {
+        int issub = found->parent != NULL;
+        struct server *asrv = NULL, *usrv = NULL;
+        if (issub && found->accsrvconfs && list_first(found->accsrvconfs))
+            asrv = ((struct clsrvconf *)list_first(found->accsrvconfs)->data)->servers;
+        if (issub && found->srvconfs && list_first(found->srvconfs))
+            usrv = ((struct clsrvconf *)list_first(found->srvconfs)->data)->servers;
+        pthread_mutex_unlock(&found->mutex);
+        freerealm(found);
+        if (issub && usrv && asrv && (th = h_thread_find(usrv))) {
+            pthread_mutex_lock(&asrv->lock);
+            asrv->state = RSP_SERVER_STATE_CONNECTED;
+            pthread_mutex_unlock(&asrv->lock);
+            h_thread_step(th); /* the hold-down is over: clientwr cleans up and ends */
+        }
+    }
+    h_execlog_reset();
+    h_dns_set_answer((const uint8_t *)"", 0, -1);
+    fputs(" | p2", out);
+    found = NULL;
+    un = maketlv(RAD_Attr_User_Name, strlen(id2), id2);
+    srv = findserver(&found, un, 0);
+    freetlv(un);
+    if (found) {
+        if (found->parent) {
+            fputs(" sub:", out);
+            puthex(out, (uint8_t *)found->name, strlen(found->name));
+        } else
+            fputs(" top", out);
+        if (srv && srv->dynamiclookuparg) {
+            fputs(" arg:", out);
+            puthex(out, (uint8_t *)srv->dynamiclookuparg, strlen(srv->dynamiclookuparg));
+        }
+        /* the argument the (re)started discovery was given, also when that server is already failing */
+        if (found->parent && found->srvconfs && list_first(found->srvconfs)) {
+            c = list_first(found->srvconfs)->data;
+            if (c->servers && c->servers->dynamiclookuparg) {
+                fputs(" sarg:", out);
+                puthex(out, (uint8_t *)c->servers->dynamiclookuparg, strlen(c->servers->dynamiclookuparg));
+            }
+        }
+        pthread_mutex_unlock(&found->mutex);
+        freerealm(found);
+    } else
+        fputs(" none", out);
+    put_lookups(out);
+    h_exec_status = 0;
+    realms = saved;
+    free(h_transcript_take());
+    free(id1);
+    free(id2);
+    return 1;
+}
+
 /* locks: the (held > acquired) mutex pairs the real code has exhibited so far in this process */
 static int op_locks(int argc, char **argv, FILE *out) {
     (void)argv;
@@ -1166,6 +1295,7 @@ int h_rsp_op(const char *op, int argc, char **argv, FILE *out) {
     if (!strcmp(op, "tick")) return op_tick(argc, argv, out);
     if (!strcmp(op, "locks")) return op_locks(argc, argv, out);
     if (!strcmp(op, "dynrealm")) return op_dynrealm(argc, argv, out);
+    if (!strcmp(op, "dynfind")) return op_dynfind(argc, argv, out);
     if (!strcmp(op, "idle")) return op_idle(argc, argv, out);
     if (!strcmp(op, "rxeval")) return op_rxeval(argc, argv, out);
     if (!strcmp(op, "reset")) return op_reset(argc, argv, out);
